@@ -21,6 +21,7 @@ type Event struct {
 	Err         string
 	HasErr      bool
 	CGas        uint64 // scope.Contract.Gas at the time of the callback
+	Digest      string // world digest before this step (set by an OnState hook)
 	ErrIsRevert bool   // err == vm.ErrExecutionReverted (identity)
 	ErrIsOog    bool   // err == vm.ErrOutOfGas (identity)
 	From        common.Address
